@@ -105,8 +105,6 @@ def real_blocks(src):
             cls = 'intype'
         elif 'field declaration outside type' in m:
             cls = 'fieldoutside'
-        elif 'case after case else' in m:
-            cls = 'caseafter'
         elif 'without' in m and (m.startswith('else') or m.startswith('case')):
             cls = 'midwithout'
         elif 'without' in m:
@@ -191,7 +189,6 @@ FAULTS = [
     ('block opener in a single-line IF', ['IF zq% THEN PRINT 1 ELSE DO'], 0, 'syntax'),
     ('CASE in a single-line IF', ['IF zq% THEN CASE 1'], 0, 'syntax'),
     ('field declaration outside TYPE', ['zzf AS INTEGER'], 0, 'syntax'),
-    ('CASE after CASE ELSE', ['SELECT CASE zq%', 'CASE ELSE', 'CASE 1', 'END SELECT'], 2, 'syntax'),
     ('mismatched types in a constant expression', ['CONST zc5 = "s" + 1'], 0, 'TYPE_MISMATCH'),
     ('INPUT into a function', ['INPUT zfun%(1)'], 0, 'DUPLICATE_DEFINITION'),
     ('non-constant CONST', ['CONST zc3 = zq%'], 0, 'INVALID_CONSTANT'),
@@ -358,7 +355,7 @@ def run(chk):
         st = real.big_frame(lambda: real.try_compile(src, 0, False))
         cls = {'without': 'block terminator without its opener', 'expected': 'block closed by the wrong terminator',
                'midwithout': 'ELSE / ELSEIF / CASE outside its block', 'notclosed': 'unclosed block', 'elseafter': 'ELSE after ELSE',
-               'beforecase': 'statement between SELECT CASE and CASE', 'intype': 'statement illegal in TYPE', 'fieldoutside': 'field declaration outside TYPE', 'caseafter': 'CASE after CASE ELSE'}.get(gp[1], gp[1])
+               'beforecase': 'statement between SELECT CASE and CASE', 'intype': 'statement illegal in TYPE', 'fieldoutside': 'field declaration outside TYPE'}.get(gp[1], gp[1])
         if st[0] == 'ok':
             chk.finding(f'C05 accepted: {cls} (statement sequence)', f'line {gp[3]} of {q}', {'kind': 'c05', 'src': src, 'O': 0, 'g': False,
                         'want': 'syntax', 'want_line': int(gp[3]), 'fault': cls, 'site': 'sequence'})
